@@ -204,7 +204,7 @@ Fixpoint eval (funs:fundefs) (n:nat) (env:senv) (e:expr) (t:trace) {struct n} : 
   | EBin op a b =>
       doo va, t1 <- eval funs n env a t;
       doo vb, t2 <- eval funs n env b t1;
-      of_opt "operator: operands" (arith sops op va vb) t2
+      of_opt (arith_why sops op va vb) (arith sops op va vb) t2
   | EEq neg a b =>
       doo va, t1 <- eval funs n env a t;
       doo vb, t2 <- eval funs n env b t1;
